@@ -402,7 +402,7 @@ pub fn gen_stream(rng: &mut Rng, p: &GenParams) -> Option<(TestStream, ModularIm
         if p.want_multi_section {
             sc = 3;
         }
-        let opts = ImgOpts { size_class: sc, max_dim: p.max_dim, orientation: rng.chance(1, 3), ..Default::default() };
+        let opts = ImgOpts { size_class: sc, max_dim: p.max_dim, orientation: rng.chance(1, 3), preview: 1, ..Default::default() };
         let Some(img) = gen_modular_image(rng, &opts) else { continue };
         if p.want_multi_section && img.frame_layout.sections.len() < 2 {
             continue;
